@@ -87,7 +87,21 @@ def matcher_fuzz(ctx, rep, msgs):
             texts.append(''.join(t))
     for _ in range(ctx.pick(4000, 60000)):
         texts.append(''.join(r.choice(ALPHABET + ['wl_surface', 'nil', '1e999', '-', '0.5', 'é', '\x1b[0m', '~', 'x' * 3]) for _ in range(r.randint(4, 14))))
-    sample_msgs = msgs if len(msgs) <= 60 else r.sample(msgs, 60)
+    # matchers whose parts are wildcards over names, interfaces and labels
+    texts += ['(wl_*)', '(*_buffer)', '(x=wl_*)', '([wl_*, xdg_*])', '(a*)', '(*a)', '.(n*)', '(*=*l*)', 'wl_*.(wl_*)', '(! wl_*)', '(nil)', '(*nil*)',
+              '*l*:', '*l*: *l*.*l*(*l*=*l*)', '.*(*)', '(1*)', '(*1)', '("*")', "('a*')"]
+    # messages with arguments about which little is known: a nil where no interface is declared (a nullable string, an
+    # interface the tool has no description of), untyped new ids, unknown interfaces
+    S = e1.Session()
+    import io
+    m.parse.into_sink(io.StringIO('\n'.join([
+        '[1000.000]  -> wl_display@1.get_registry(new id wl_registry@2)',
+        '[1000.100] wl_data_offer@4278190080.accept(7, nil)',
+        '[1000.200]  -> zz_nowhere_v9@77.frob(nil, wl_surface@5, new id [unknown]@9, 3, "s", fd 4, array[8])',
+        '[1000.300] wl_registry@2.global(1, "wl_compositor", 4)',
+        '[1000.400]  -> wl_surface@12.attach(nil, 0, 0)']) + '\n'), S.output, S.cm)
+    odd = list(S.hist())
+    sample_msgs = odd + (msgs if len(msgs) <= 60 else r.sample(msgs, 60))
     nacc = 0
     for t in texts:
         rep.case('matcher:' + t)
